@@ -11,6 +11,7 @@ import (
 	"context"
 	"encoding/json"
 	"fmt"
+	"hash/fnv"
 	"os"
 	"os/exec"
 	"path/filepath"
@@ -360,7 +361,23 @@ func (s *Sim) WriteOuts(j *Job, outs *jsonx.Obj) error {
 		name = "_stage_defs"
 	}
 	j.Outs = outs
-	return os.WriteFile(filepath.Join(j.MdPath, name), jsonx.Marshal(outs), 0o644)
+	return os.WriteFile(filepath.Join(j.MdPath, name), jsonx.MarshalStyle(outs, OutsStyle(j.Identity())), 0o644)
+}
+
+// OutsStyle picks how a job serialises its outputs: stage code is written
+// in any language, and different JSON writers spell the same value
+// differently (Go: compact UTF-8; Python: ", " / ": " separators and \uXXXX
+// for everything outside ASCII; PHP: "\/").  A pure function of the job.
+func OutsStyle(identity string) *jsonx.Style {
+	h := fnv.New32a()
+	h.Write([]byte(identity))
+	switch h.Sum32() % 5 {
+	case 0, 1:
+		return jsonx.PythonStyle
+	case 2:
+		return &jsonx.Style{EscapeSlash: true, ASCII: true}
+	}
+	return nil
 }
 
 // MarkComplete writes _complete and its journal entry.
